@@ -332,15 +332,15 @@ PROPS = {
                 level_text='C14_pod / C14_default / C14_node: the three filters are equivalent to the documented attribution rules for every pod and node; C14_view: a group\'s view is exactly the filtered lists. '
                            'Tie: filters stream enumerates exhaustively the small-scope universe (7 selectors x ~190 affinity shapes x 5 owner sets x 4 annotation sets = 141,820 pods, 9 label maps) through the real filter functions; at controller level, after every scan of the multi-group histories the harness asks each group\'s own lister objects what they return and the driver compares that with viewOf (names of pods and nodes): a disagreement names the mis-attributed pod or node.',
                 level_note=LEVEL_NOTE, exhaustive=True),
-    'C15': dict(level='proof', module='EscProofs.P.C15',
+    'C15': dict(level='proof', module='EscProofs.P.C15Done',
                 streams=dict(quick=[('taintops', ['-n', 4000]), ('hist', ['-n', 300, '-scans', 10]), ('hist', ['-n', 200, '-scans', 10, '-focus', 'down']), ('hist', ['-n', 16, '-scans', 8, '-focus', 'down', '-slow'])],
                              thorough=[('taintops', ['-n', 100000]), ('hist', ['-n', 15000, '-scans', 12]), ('hist', ['-n', 10000, '-scans', 12, '-focus', 'down']), ('hist', ['-n', 160, '-scans', 8, '-focus', 'down', '-slow'])],
                              search=[('taintops', ['-n', 20000]), ('hist', ['-n', 1500, '-scans', 12]), ('hist', ['-n', 1500, '-scans', 12, '-focus', 'down']), ('hist', ['-n', 32, '-scans', 8, '-focus', 'down', '-slow'])]),
                 aspects=['journal', 'ok', 'time', 'age', 'panic', 'hist:updates'], monitors=['C15'],
                 theorems=['Esc.P.C15_add', 'Esc.P.C15_add_idempotent', 'Esc.P.C15_delete', 'Esc.P.C15_no_restamp', 'Esc.P.C15_history',
-                          'Esc.P.swapRemoveFirst_perm', 'Esc.P.C15_precise_add', 'Esc.P.C15_precise_delete', 'Esc.P.C15_history_stamp'],
+                          'Esc.P.swapRemoveFirst_perm', 'Esc.P.C15_precise_add', 'Esc.P.C15_precise_delete', 'Esc.P.C15_history_stamp', 'Esc.P.C15_delete_success_means_written', 'Esc.P.C15_add_success_means_written'],
                 technique='Lean 4 theorem (exact object of every UPDATE relative to the preceding GET; swap-remove preserves the other taints as a multiset; no re-stamp along histories) + differential correspondence on complete UPDATE objects + monitor',
-                level_text='C15_add/C15_delete: the UPDATE object is the fetched object plus exactly the stamped escalator taint (effect or NoSchedule) on an object without one, or minus its first escalator taint, all other fields and taints preserved; '
+                level_text='C15_delete_success_means_written / C15_add_success_means_written: success is reported only after an accepted UPDATE when the copy the API server returned needed one. C15_add/C15_delete: the UPDATE object is the fetched object plus exactly the stamped escalator taint (effect or NoSchedule) on an object without one, or minus its first escalator taint, all other fields and taints preserved; '
                            'C15_precise_add / C15_precise_delete: the objects the model writes satisfy the very predicate the monitor evaluates on observed UPDATEs (taints compared as a multiset: the property does not fix their order); C15_add_idempotent: an already tainted node gets no UPDATE; C15_no_restamp/C15_history: no write ever gives an already tainted node a different escalator taint. '
                            'Tie: taintops (direct calls, stale views, odd taint values, faults) and hist; full objects compared (plus a digest of every unmodelled field); monitor on observed GET/UPDATE pairs.',
                 level_note=LEVEL_NOTE),
